@@ -51,7 +51,7 @@ Proof.
 Qed.
 
 (* ======== the other half: a listed numeral standing as a whole number IS matched, as a whole ======== *)
-Require Ipv4Token.
+Require Ipv4Token TextProofs.
 Lemma lang_lit_self (n : list chr) : lang (lit_rx n) n.
 Proof.
   induction n as [|c n IH]; cbn [lit_rx fold_right]; [constructor|]. fold (lit_rx n). change (c :: n) with ([c] ++ n). constructor; [|exact IH].
@@ -145,4 +145,54 @@ Proof.
   destruct (ms s (as_rx nums) i []) as [|[j cj] l] eqn:E; [destruct H1|]. cbn [first_some].
   assert (j = i + length n) by (apply (as_match_at_a_listed_number_covers_exactly_it s nums n i [] Hne Hd Hin O Hi A j cj); rewrite E; now left).
   subst j. now exists cj.
+Qed.
+
+(* ======== over a whole line: finditer reports every listed whole number, with its exact extent, and nothing else ======== *)
+Theorem as_finditer_reports_every_listed_whole_number (s : list chr) (nums : list (list chr)) (n : list chr) a :
+  Forall (fun m => forallb is_digit m = true) nums -> Forall (fun m => m <> []) nums -> In n nums -> occ s n a -> a + length n <= length s ->
+  (a = 0 \/ (1 <= a /\ exists x, nth_error s (a - 1) = Some x /\ in_cset x NOT_DIGIT = true)) ->
+  (eol s (a + length n) = true \/ exists x, nth_error s (a + length n) = Some x /\ in_cset x NOT_DIGIT = true) ->
+  forall fuel i, i <= a -> a - i < fuel -> In (a, a + length n) (finditer s fuel (as_rx nums) i).
+Proof.
+  intros Hd Hnn Hin O Hlen B A.
+  assert (Ha : a <= length s) by lia.
+  assert (Hne : nums <> []) by (intros ->; destruct Hin).
+  destruct (as_engine_replaces_the_whole_number s nums n a Hd Hin O Ha B A) as (c0 & M).
+  assert (Hnull : nullable (as_rx nums) = false) by (apply TextProofs.as_regex_non_nullable; assumption).
+  induction fuel as [|fuel IH]; intros i Hi Hf; [lia|]. cbn [finditer].
+  destruct (Ipv4Token.search_from_finds s (as_rx nums) (Rx.slen s - i) i a _ _ M Hi ltac:(unfold Rx.slen; lia)) as (p & q & cq & S & Hpa).
+  rewrite S. pose proof (search_from_ge s _ _ _ _ _ _ S) as [Hip Mp].
+  destruct (Nat.eq_dec p a) as [->|Hnpa].
+  - rewrite M in Mp. injection Mp as <- <-. now left.
+  - right. assert (Hp : p <= length s) by lia.
+    pose proof (match_at_in s _ _ _ _ Mp) as Hm.
+    destruct (as_match_is_a_listed_whole_number s nums p [] q cq Hne Hp Hm) as (Mq & _ & _).
+    pose proof (ms_den s _ _ _ _ _ Hm) as D. destruct (den_bounds s _ _ _ D) as [Hpq Hq]. specialize (Hq Hp).
+    assert (Hlt : p < q). { destruct (ms_mono s _ _ _ _ _ Hm) as [_ Sm]. now apply Sm. }
+    assert (Hqa : q <= a).
+    { destruct (Nat.le_gt_cases q a) as [|Hgt]; [assumption|exfalso].
+      destruct B as [->|(H1 & x & Hx & Ex)]; [lia|].
+      rewrite Forall_forall in Hd. pose proof (Hd _ Mq) as Dq. rewrite forallb_forall in Dq.
+      pose proof (digit_is_not_nondigit x (Dq _ (Ipv4Token.in_sub s p q (a - 1) x ltac:(lia) ltac:(lia) Hq Hx))) as Nx. congruence. }
+    replace (Nat.eqb p q) with false by (symmetry; apply Nat.eqb_neq; lia).
+    apply IH; lia.
+Qed.
+
+Theorem as_finditer_reports_only_listed_whole_numbers (s : list chr) (nums : list (list chr)) : nums <> [] -> Forall (fun m => m <> []) nums ->
+  forall fuel i a b, i <= length s -> In (a, b) (finditer s fuel (as_rx nums) i) ->
+  In (sub s a b) nums /\
+  (a = 0 \/ (1 <= a /\ exists x, nth_error s (a - 1) = Some x /\ in_cset x NOT_DIGIT = true)) /\
+  (eol s b = true \/ exists x, nth_error s b = Some x /\ in_cset x NOT_DIGIT = true).
+Proof.
+  intros Hne Hnn. assert (Hnull : nullable (as_rx nums) = false) by (apply TextProofs.as_regex_non_nullable; assumption).
+  induction fuel as [|fuel IH]; intros i a b Hi H; cbn [finditer] in H; [destruct H|].
+  destruct (search_from s (Rx.slen s - i) (as_rx nums) i) as [[[p q] cq]|] eqn:S; [|destruct H].
+  pose proof (Ipv4Token.search_from_le s _ _ _ _ _ _ S) as Hp. unfold Rx.slen in Hp.
+  pose proof (search_from_ge s _ _ _ _ _ _ S) as [_ Mp]. pose proof (match_at_in s _ _ _ _ Mp) as Hm.
+  destruct H as [[= <- <-]|H].
+  - apply (as_match_is_a_listed_whole_number s nums p [] q cq Hne ltac:(lia) Hm).
+  - pose proof (ms_den s _ _ _ _ _ Hm) as D. destruct (den_bounds s _ _ _ D) as [Hpq Hq]. specialize (Hq ltac:(lia)).
+    destruct (ms_mono s _ _ _ _ _ Hm) as [_ Sm]. specialize (Sm Hnull).
+    replace (Nat.eqb p q) with false in H by (symmetry; apply Nat.eqb_neq; lia).
+    apply (IH q a b Hq H).
 Qed.
